@@ -133,7 +133,8 @@ fn interesting(rng: &mut Rng, t: &str, n: usize) -> i128 {
     0
 }
 
-pub fn generate(rng: &mut Rng, n: usize, thorough: bool) -> Vec<Value> {
+pub fn generate(rng: &mut Rng, n: usize, tier: &str) -> Vec<Value> {
+    let thorough = tier == "thorough";
     let mut v = vec![];
     let sizes: [usize; 14] = [0, 1, 2, 3, 10, 100, 127, 128, 255, 256, 300, 1 << 31, (1 << 32) + 3, (i64::MAX as usize)];
     // exhaustive small part: every form, n <= N, bounds in [-B, B], written as i8 and as usize where possible
